@@ -4,3 +4,5 @@ import GwcsModel.TExpr
 import GwcsModel.Pipeline
 import GwcsModel.Drv.C14
 import GwcsModel.Drv.Pipe
+import GwcsModel.Cache
+import GwcsModel.Drv.C08
